@@ -28,7 +28,8 @@ ASSUMPTIONS = [
     "Entries of one chromosome are contiguous and chromosomes appear in genome order (the streaming precondition; C12 covers its violation).",
 ]
 REQUIRED_CLASSES = ["cut-inside-group", "single-entry-chunk", "short-last-chunk", "one-chunk", "empty-chromosome", "trailing-empty-chromosome",
-                    "mean", "bincount", "histogram", "count_kmers", "groupby", "groupby-str", "chunk_entries", "pileup", "mask-sum", "pileup-histogram", "window-mean", "joint", "streamable-map", "more-than-a-million-kmers"]
+                    "mean", "bincount", "histogram", "count_kmers", "groupby", "groupby-str", "chunk_entries", "pileup", "mask-sum", "pileup-histogram", "window-mean", "joint", "streamable-map", "more-than-a-million-kmers",
+                    "windows-in-memory-not-sorted-by-start", "stranded-windows"]
 BOUNDS = {"quick": "all 128 chunkings of n = 8 entries x 15 computations x 10 datasets; 1000 sampled", "thorough": "all 512 chunkings for n = 10 on 12 datasets and all 2048 for n = 12 on 4 datasets; 19200 sampled (n up to 300)"}
 BUDGET_S = {"quick": 200, "thorough": 1500}
 
@@ -71,6 +72,10 @@ def classify(case):
         cl.append("empty-chromosome")
     if names and names[-1] not in present:
         cl.append("trailing-empty-chromosome")
+    if case.get("unsorted_windows"):
+        cl.append("windows-in-memory-not-sorted-by-start")
+    if case.get("wstrands"):
+        cl.append("stranded-windows")
     return inside or ("single-entry-chunk" in cl) or ("short-last-chunk" in cl), cl
 
 
@@ -315,6 +320,25 @@ def check(case, stats=None):
                                     stats.tolerant["streamed-mean-under-unequal-windows-refused:" + type(e_).__name__] += 1
                             if got_r is not None and (got_r.shape != mem.shape or not np.allclose(got_r, mem, rtol=1e-9, atol=1e-12)):
                                 return [Failure("C11:window-mean:unequal-windows", {"streamed": got_r.tolist(), "in_memory": mem.tolist(), "windows": rw})]
+                if case.get("unsorted_windows"):
+                    # windows held in memory (not streamed), grouped by chromosome in genome order but not sorted by start within a chromosome:
+                    # the rows extracted from the streamed track are the rows of the in-memory track, window for window in the order given
+                    rot = case["unsorted_windows"]
+                    uw = []
+                    for n in names:
+                        mine = [x for x in wins if x[0] == n]
+                        if mine:
+                            r_ = rot % len(mine)
+                            mine = (mine[r_:] + mine[:r_])[::-1] if rot % 2 else mine[r_:] + mine[:r_]
+                        uw.extend(mine)
+                    uwt = Interval([x[0] for x in uw], np.array([x[1] for x in uw], dtype=int), np.array([x[1] + w for x in uw], dtype=int))
+
+                    def rows_u(x):
+                        return [np.asarray(r.to_array() if hasattr(r, "to_array") else r).tolist() for r in x]
+                    got_u = rows_u(bnp.compute(genome.get_intervals(stream()).get_pileup()[genome.get_intervals(uwt)]))
+                    want_u = [[dense[n][s_ + j] for j in range(w)] for n, s_ in uw]
+                    if got_u != want_u:
+                        return [Failure("C11:window-rows:windows-in-given-order", {"windows": uw, "streamed": got_u, "expected": want_u})]
                 if case.get("wstrands"):
                     # the values under stranded windows (strands '+', '-' and the undetermined '.'): streamed rows == in-memory rows, and for
                     # '+' / '-' rows also the dense values (reversed on '-')
@@ -389,6 +413,8 @@ def make_case(genome, ents, cuts, comp, salt):
         case["w"] = 1 + salt % 3
         if salt % 3 == 0:
             case["ragged_windows"] = True
+        if salt % 5 in (1, 2, 3):
+            case["unsorted_windows"] = 1 + salt % 7
         if salt % 2:
             case["wstrands"] = ["+-", "+-.", ".", "-.", "+", ".+"][(salt // 2) % 6]
     if comp == "streamable-map":
